@@ -55,7 +55,7 @@ class _FmtRewrite(ast.NodeTransformer):
             left = node.left
             is_str = (isinstance(left, ast.Constant) and isinstance(left.value, str)) or \
                 isinstance(left, ast.JoinedStr) or \
-                (isinstance(left, ast.Name) and left.id in ("mess", "fmt", "numfmt", "headfmt", "message", "msg"))
+                (isinstance(left, ast.Name) and (left.id in ("mess", "message", "msg") or left.id.endswith("fmt")))
             if is_str:
                 return ast.copy_location(
                     ast.Call(func=ast.Name(id="__fmt__", ctx=ast.Load()),
@@ -104,6 +104,9 @@ def s_isinstance(obj, cls):
         return isinstance(obj, str) or getattr(obj, "is_abstract_str", False)
     if isinstance(cls, symnp._STy):
         return False
+    if cls is symnp.SArr:
+        from . import symrec
+        return isinstance(obj, (symnp.SArr, symrec.SRec))
     return isinstance(obj, cls)
 
 
@@ -160,8 +163,8 @@ class _MathShim(object):
 
     def __getattr__(self, name):
         f = getattr(self._m, name)
-        npf = getattr(symnp, {"asin": "arcsin", "acos": "arccos", "atan": "arctan",
-                              "atan2": "arctan2"}.get(name, name), None)
+        npf = symnp.__dict__.get({"asin": "arcsin", "acos": "arccos", "atan": "arctan",
+                                  "atan2": "arctan2"}.get(name, name))
 
         def g(*a):
             if any(isinstance(v, Sym) for v in a):
